@@ -9,8 +9,8 @@ OBLIGATIONS = [
        variants=[{'ELEM': 0, 'PHASE': ph} for ph in (1, 2)] + [{'ELEM': e, 'WITH_MAG': m, 'REFL': f, 'PHASE': ph} for e in (1, 2) for (m, f) in ((0, 0), (1, 1), (0, 1)) for ph in (1, 2, 3)],
        unwind=165, timeout=600, mem_gb=14, wrap_files=True, nvec=8, flags=['--max-field-sensitivity-array-size', '450']),
     Ob('write_read_sequences', 'C01/roundtrip.c', [RG, WG], stubs=['_ZNK5gdstk7Polygon8fractureEmdRNS_5ArrayIPS0_EE'], shrink=[(65537, 96, set())], rename=RN, defines={'WITH_MAG': 0, 'REFL': 0, 'PHASE': 2, 'ELEM': 3, 'VF_CAP': 640},
-       what='write_gds then read_gds of a library with SEQUENCES of elements: cell A = polygon, label with magnification 2 and reflection, plain label, reference with magnification 0.5 and reflection, plain reference; cell D = one polygon: every element re-loads with its own fields (what one element carries does not leak into the next, in the writer or in the reader)',
-       bound='two cells, six elements; coordinates within +-2^20, 15-bit tags; unit = precision = 1e-9',
+       what='write_gds then read_gds of a library with SEQUENCES of elements: cell A = polygon, label with magnification 2 and reflection, plain label, reference with magnification 0.5 and reflection, plain reference; cell D = one polygon and one label: every element re-loads with its own fields (what one element carries does not leak into the next, in the writer or in the reader)',
+       bound='two cells, seven elements; coordinates within +-2^20, 15-bit tags; unit = precision = 1e-9',
        variants=[{}], unwind=45, unwindset=['_ZN5gdstk8read_gdsEPKcddPKNS_3SetImEEPNS_9ErrorCodeE.13:90'], timeout=900, mem_gb=14, wrap_files=True, nvec=8, flags=['--max-field-sensitivity-array-size', '700']),
     Ob('aref_export', 'C03/aref_export.c', ['_ZNK5gdstk9Reference6to_gdsEP8_IO_FILEd'], model='ie', defines={'IE_BITS': 14, 'REAL_TOL': 1},
        stubs=['_ZN5gdstk24is_multiple_of_pi_over_2EdRl', '_ZN5gdstk22gdsii_real_from_doubleEd'], rename={'strlen': 'my_strlen1'},
